@@ -144,9 +144,15 @@ def autodetect_case(variant, bom, root):
     snap = common.snapshot()
     for kind, data in files.items():
         tfp = os.path.join(root, f"auto_{variant}_{kind}.txt")
+        name = f"c19auto_{variant}_{kind}"
+        if kind == 'plain':
+            # history: the rule name was used before, for an older export of the list under the same file name in another encoding
+            # (given explicitly then); nothing recorded by that run may decide how the new file is read
+            with open(tfp, 'wb') as f:
+                f.write('caf\xe9 2019\nna\xefve\n'.encode('cp1252'))
+            common.run_cli('trainer.py', ['-r', name, '-t', tfp, '-e', 'cp1252'], stdin='devnull', timeout=300)
         with open(tfp, 'wb') as f:
             f.write(bom + data)
-        name = f"c19auto_{variant}_{kind}"
         o_, e_, rc_ = common.run_cli('trainer.py', ['-r', name, '-t', tfp] + (['--prefixcount'] if kind == 'count' else []), stdin='devnull', timeout=300)
         dirs[kind] = (os.path.join(snap, 'Rules', name), rc_, e_[-200:])
     wit = {'autodetect': variant, 'words': words}
